@@ -129,7 +129,8 @@ class ExprMixin(object):
 def _operand(x, fmt):
     # a unary expression used as an operand keeps its own parentheses, so that the rendering
     # denotes the same expression tree under Python's operator precedence
-    s = fmt(x)
+    # plain constants are always rendered with repr: str() would drop the quotes of 'abc' and b'abc'
+    s = fmt(x) if isinstance(x, ExprMixin) else repr(x)
     if isinstance(x, UniExpr):
         return "(%s)" % (s,)
     if isinstance(x, (int, float)) and not isinstance(x, bool) and x < 0:
